@@ -526,11 +526,11 @@ func (s *state) exec(op tr.Line) {
 				w.Fail("PeekWithBytes", "no-error-beyond-total", fmt.Sprintf("n=%d total=%d", n, len(all)))
 			}
 		case err == io.ErrShortBuffer:
-			// the documented guard compares with the list alone (see C10)
+			// the given slices count towards n (the guard compared n with the list alone until /repo 3230e49, see C10)
 			class = "shortbuf"
 			w.Tag("peekb-shortbuf")
-			if !(n > s.total()) || len(bss) != 0 {
-				w.Fail("PeekWithBytes", "shortbuf-within-list", fmt.Sprintf("n=%d list=%d", n, s.total()))
+			if !(n > len(all)) || len(bss) != 0 {
+				w.Fail("PeekWithBytes", "shortbuf-within-total", fmt.Sprintf("n=%d list=%d given=%d", n, s.total(), len(all)-s.total()))
 			}
 		default:
 			w.Fail("PeekWithBytes", "ret err="+errSym(err), "")
